@@ -270,6 +270,26 @@ fn burnfee_part(r: &mut Rng, out: &mut Out, thorough: bool) {
         let f = |t: u64| BurnFee::return_routing_work_needed_to_produce_block_in_nolan(bf, prev + t, prev, hb);
         let (w1, w2) = (f(t1), f(t2));
         out.count("mono:triples");
+        // a block stamped AT or BEFORE its parent can never carry enough work, however far back it is stamped: the requirement
+        // is the impossible amount (10^19), in particular it is not the "two heartbeats have passed" zero
+        let back = match r.below(6) {
+            0 => 0,
+            1 => r.below(3),
+            2 => hb.saturating_mul(2).saturating_sub(1).saturating_add(r.below(3)),
+            3 => hb.saturating_mul(r.range(2, 5)),
+            4 => t2,
+            _ => r.below(span + 1),
+        }
+        .min(prev);
+        let wb = BurnFee::return_routing_work_needed_to_produce_block_in_nolan(bf, prev - back, prev, hb);
+        out.count("mono:misordered");
+        if wb < SENTINEL {
+            out.monitor_fail(
+                "C08/work-needed-for-a-block-stamped-at-or-before-its-parent-is-attainable",
+                &format!("a block stamped {} ms before its parent needs only {} work (heartbeat {}, parent burn fee {})", back, wb, hb, bf),
+                serde_json::json!({"burn_fee": bf.to_string(), "previous_ts": prev.to_string(), "heartbeat": hb, "stamped_before_parent_by": back}),
+            );
+        }
         if w2 > w1 {
             // feature of the input, computed here alone: the only listed failure needs t1 = 0 (sentinel branch) and bf ≥ 10^19
             let cls = if t1 == 0 && bf >= SENTINEL { "zero-elapsed-and-burnfee-at-or-above-the-1e19-sentinel" } else { "other" };
